@@ -11,6 +11,9 @@ Definition pp_reset (p : pp) : pp :=
   | PLimit s => PLimit (LimitEmptyLines_reset s)
   end.
 
+(* (since fix 91c… of C10, `_generate_code` first drops the Jinja modules of templates imported without context --
+   `_forget_imported_template_modules`: it concerns what the template generator yields, i.e. the `chunks` below, not how
+   they are written; reviewed when the shape pin was refreshed for /repo ea2ccee) *)
 (* `if len(line_pps) > 0: self._generate_with_line_buffer(...) else: for part in template_gen: output_file.write(part)` *)
 Definition gen_file (ps : list pp) (chunks : list str) : list pp * str :=
   match ps with
